@@ -36,6 +36,15 @@ Pts3 == [k \in 1..6 |-> <<F32V(k, 16256), F32V(k, 16257), F32V(k, 16258),
                            LV(3, IF k = 1 THEN IntL(0) ELSE IF k = 2 THEN I64Max ELSE IntL(k * 1000003)),
                            LV(3, IF k = 1 THEN I64Min ELSE IF k = 2 THEN IntL(5) ELSE IntL(-k * 77)),
                            LV(2, IF k = 1 THEN IntL(-1) ELSE IF k = 2 THEN I64Max ELSE IntL(k))>>]
+\* invalid-state records whose stored value can lie outside the documented set (the writer cannot produce these)
+F1 == F32V(0, 16256)       \* 1.0
+F2 == F32V(0, 16384)       \* 2.0
+FN == F32V(0, 49184)       \* -2.5
+F0 == F32V(0, 0)
+Proto4 == <<RF32("cartesianX"), RF32("cartesianY"), RF32("cartesianZ"), RInt("cartesianInvalidState", IntL(0), IntL(3)),
+            RInt("intensity", IntL(0), IntL(15)), RInt("isIntensityInvalid", IntL(0), IntL(3))>>
+Pts4(badc, badi) == [k \in 1..7 |-> <<IF k % 2 = 0 THEN F1 ELSE F0, IF k % 3 = 0 THEN FN ELSE F0, IF k % 2 = 1 /\ k % 3 # 0 THEN F2 ELSE F0,
+                                    IV(IF k = badc THEN 3 ELSE k % 3), IV((k * 5) % 16), IV(IF k = badi THEN 2 ELSE k % 2)>>]
 \* one integer record of every width (all bit phases with 9 values)
 WMin(w) == IF w = 64 THEN I64Min ELSE IntL(-3)
 WProto(w) == <<RF32("cartesianX"), RF32("cartesianY"), RF32("cartesianZ"),
@@ -93,6 +102,9 @@ SceneCases(name, proto, pts) ==
 ASSUME SceneCases("s1", Proto1, AsSeq(Pts1))
 ASSUME SceneCases("s2", Proto2, AsSeq(Pts2))
 ASSUME SceneCases("s3", Proto3, AsSeq(Pts3))
+ASSUME SceneCases("s4ok", Proto4, AsSeq(Pts4(0, 0)))
+ASSUME SceneCases("s4badc", Proto4, AsSeq(Pts4(5, 0)))
+ASSUME SceneCases("s4badi", Proto4, AsSeq(Pts4(0, 3)))
 ASSUME \A w \in Widths : SceneCases("w" \o ToString(w), WProto(w), AsSeq(WPts(w)))
 \* the single-packet layout of the first scene at every start
 ASSUME \A j \in 1..Len(Starts) : Case("s1-at-" \o ToString(Starts[j]), Proto1, AsSeq(Pts1), <<D(Lens(AllStreams(Proto1, AsSeq(Pts1), 1)))>>, Starts[j])
